@@ -44,6 +44,8 @@ fn probe_for(f: u8, log: &Log, cfg: &LifeCfg) -> Probe {
     let deny = if cfg.variant == f { cfg.deny } else { DenyMask::default() };
     let mut p = Probe::new(f, log.clone(), deny);
     p.extra_addrs = vec![a(60 + f as u64)];
+    // every handler has a final event; the handler of field `slow_close - 1` flushes slowly
+    p.close_events = Some(if cfg.slow_close == f + 1 { 4 } else { 0 });
     p
 }
 
